@@ -36,7 +36,7 @@ import (
 //
 // where the package is read off the innermost frames of the dying goroutine
 // (go-ucfg/parse, go-ucfg, hjson-go, yaml.v2, encoding/json). A probe that
-// does not come back within deepTimeout is signed hang:deep-nesting:<kind of text>.
+// uses more than deepTimeout of processor time is signed hang:deep-nesting:<kind of text>.
 
 const (
 	deepEnv     = "VERIF_C07_DEEP_PROBE"
@@ -377,6 +377,16 @@ func deepChild(spec string) {
 		fmt.Println("BADSPEC")
 		os.Exit(0)
 	}
+	start := time.Now()
+	go func() {
+		for {
+			time.Sleep(20 * time.Millisecond)
+			if cpuTime() > deepTimeout || time.Since(start) > 10*deepTimeout {
+				fmt.Printf("WATCHDOG time: %v of processor time, %v of wall time\n", cpuTime().Round(time.Millisecond), time.Since(start).Round(time.Millisecond))
+				os.Exit(4)
+			}
+		}
+	}()
 	ri, _ := strconv.Atoi(parts[0])
 	si, _ := strconv.Atoi(parts[1])
 	rt := deepRoutes[ri]
@@ -426,7 +436,9 @@ func runProbe(ri, si int, depths []int) deepReport {
 	for _, d := range depths {
 		ds = append(ds, strconv.Itoa(d))
 	}
-	ctx, cancel := context.WithTimeout(context.Background(), deepTimeout)
+	// the probe ends itself after deepTimeout of PROCESSOR time (the load of
+	// the machine must not decide); the wall clock is only a backstop
+	ctx, cancel := context.WithTimeout(context.Background(), 10*deepTimeout+10*time.Second)
 	defer cancel()
 	cmd := exec.CommandContext(ctx, exe, "c07-deep-probe")
 	cmd.Env = append(os.Environ(), fmt.Sprintf("%s=%d,%d,%s", deepEnv, ri, si, strings.Join(ds, ",")), "GOTRACEBACK=single")
@@ -434,7 +446,7 @@ func runProbe(ri, si int, depths []int) deepReport {
 	var so, se bytes.Buffer
 	cmd.Stdout, cmd.Stderr = &so, &se
 	rep.exitErr = cmd.Run()
-	rep.timedOut = ctx.Err() != nil
+	rep.timedOut = ctx.Err() == context.DeadlineExceeded || strings.Contains(so.String(), "WATCHDOG time")
 	rep.stderr = se.String()
 	lines := strings.Split(so.String(), "\n")
 	for i := 0; i < len(lines); i++ {
@@ -656,7 +668,7 @@ func runDeepShape(m *mon, ri, si int, depths []int) {
 	}
 	if rep.timedOut {
 		res.Ev("h_probe_timeouts", 1)
-		res.Violate("hang:deep-nesting:"+rt.family(), "the probe process did not return within %v (largest depth that returned: %d); input: %s", deepTimeout, maxDone, in(died))
+		res.Violate("hang:deep-nesting:"+rt.family(), "the probe process did not return within %v of processor time (largest depth that returned: %d); input: %s", deepTimeout, maxDone, in(died))
 		return
 	}
 	res.Ev("h_probe_deaths", 1)
